@@ -47,7 +47,10 @@ Theorem cp_normsq_spec (w : option tensor) fs shp R :
   cp_normsq Op w fs = Ok (fsum_idx shp (fun idx => cp_entry w fs R idx *f cp_entry w fs R idx)).
 Proof.
   intros Hv H2. pose proof (valid_mats F _ _ _ _ Hv H2) as Hm.
-  unfold cp_normsq. rewrite Hv. cbn [rbind]. f_equal.
+  unfold cp_normsq, cp_normsq_from. rewrite Hv. cbn [rbind]. rewrite (as_matrices_id F _ H2).
+  assert (Hhd : (ndim (hd (mk [] []) fs) =? 2) = true).
+  { destruct fs as [|f fs']; [inversion Hm; subst; discriminate Hv|]. inversion H2; subst. cbn [hd]. now apply Nat.eqb_eq. }
+  rewrite Hhd. cbn [negb]. f_equal.
   assert (HR : ncols (hd (mk [] []) fs) = R).
   { destruct fs as [|f fs]; [inversion Hm; subst; discriminate Hv|]. inversion Hm; subst. unfold ncols. cbn [hd].
     match goal with H : shape f = _ |- _ => rewrite H end. reflexivity. }
